@@ -258,8 +258,13 @@ def amGet {ν : Type} (m : List (Addr × ν)) (a : Addr) : Option ν := (m.find?
 def amDel {ν : Type} (m : List (Addr × ν)) (a : Addr) : List (Addr × ν) := m.filter (·.1 != a)
 def amPut {ν : Type} (m : List (Addr × ν)) (a : Addr) (v : ν) : List (Addr × ν) := (a, v) :: amDel m a
 
-def launchedKey : Bytes := "launched-flag".toUTF8.toList
-def bootstrappedKey : Bytes := "bootstrapped-flag".toUTF8.toList
+/-- `asciiBytes` of the key names, spelled out so that the kernel can evaluate histories (`#guard`s below keep them honest) -/
+def launchedKey : Bytes := [108, 97, 117, 110, 99, 104, 101, 100, 45, 102, 108, 97, 103]       -- "launched-flag"
+def bootstrappedKey : Bytes := [98, 111, 111, 116, 115, 116, 114, 97, 112, 112, 101, 100, 45, 102, 108, 97, 103]   -- "bootstrapped-flag"
+def trueValue : Bytes := [116, 114, 117, 101]   -- "true"
+#guard launchedKey == "launched-flag".toUTF8.toList
+#guard bootstrappedKey == "bootstrapped-flag".toUTF8.toList
+#guard trueValue == "true".toUTF8.toList
 
 def kvGet (m : List (Bytes × KVRec)) (k : Bytes) : Option KVRec := (m.find? (·.1 == k)).map (·.2)
 def kvPut (m : List (Bytes × KVRec)) (k : Bytes) (v : KVRec) : List (Bytes × KVRec) :=
@@ -340,7 +345,7 @@ def isLaunchBatch (rs : List Request) : Outcome Bool :=
 def DB.mergeRequests (d : DB) (rs : List Request) : DB :=
   { d with requests := (rs.foldl groupStep []).foldl (fun m (p : Addr × List Request) => amPut m p.1 p.2) d.requests }
 
-def launchedRec : KVRec := { key := launchedKey, value := "true".toUTF8.toList, finalized := true }
+def launchedRec : KVRec := { key := launchedKey, value := trueValue, finalized := true }
 
 /-- `setLaunched` + arming the deadline (db.go:309-312) -/
 def DB.markLaunched (d : DB) : Outcome DB :=
